@@ -1,6 +1,8 @@
 //! Per-property monitors. The table-driven properties use the generic sweep; the others
 //! have a module of their own.
 
+pub mod quire;
+
 use crate::ops::Registry;
 use crate::rt::{Ctx, Report};
 use crate::sweep::{self, Mode, Plan};
@@ -37,6 +39,13 @@ pub fn run(ctx: &Ctx, reg: &Registry, rep: &mut Report) {
             let (exh, samples) = budget(&ctx.prop, ctx.quick());
             let plans = sweep::plan_for(reg, &ctx.prop, exh, samples);
             run_plans(ctx, reg, plans, rep);
+        }
+        "C04" => quire::run_c04(ctx, rep),
+        "C12" => {
+            let (exh, samples) = if ctx.quick() { (16.0, 1 << 24) } else { (32.0, 1 << 28) };
+            let plans = sweep::plan_for(reg, "C12", exh, samples);
+            run_plans(ctx, reg, plans, rep);
+            quire::run_c12(ctx, rep);
         }
         other => {
             rep.harness_errors.push(format!("no monitor for property {}", other));
